@@ -135,6 +135,7 @@ pub fn generate(prop: &str, tier: &str, seed: u64, rec: &mut Rec) {
             "C11" => vec![crate::sweeps::container_sizes(false), crate::sweeps::string_lengths(thorough)],
             "C02" => vec![crate::sweeps::string_lengths(thorough)],
             "C12" => vec![crate::sweeps::intern_lengths(thorough)],
+            "C05" => vec![crate::sweeps::log_lengths(thorough)],
             _ => vec![],
         };
         for s in sweeps {
